@@ -107,6 +107,9 @@ func (kc *ConstantCompiler) QueueConstant(ki uint) int {
 func (kc *ConstantCompiler) CompileQueue() (unit *code.Unit, err error) {
 	defer func() {
 		if r := recover(); r != nil {
+			if le, ok := r.(*code.LimitError); ok {
+				r = newPanic(le.Msg)
+			}
 			cp, ok := r.(*CompilationPanic)
 			if !ok {
 				panic(r)
